@@ -1535,7 +1535,7 @@ class System:
                 dname = ndom[self._parents[n][0]]
             ndom[n] = dname
             ph_names = []
-            if tname == "SLOSS":
+            if tname == "SLOSS" or tname == "RECTIFIER":
                 ph_names += ["N/A"]
             elif (
                 tname == "CONVERTER"
